@@ -88,7 +88,7 @@ ReqFailed(s, req, res, pre, post) ==
           (IF post.objs = pre.objs /\ post.seq = pre.seq THEN {} ELSE {"C08_told"})
           \cup (IF res.kind = "raised" /\ res.exc = "KmipError" THEN {} ELSE {"C13_raise"}))
     \* the response could not be encoded under the request's version and decoded again
-    \cup (IF res.unenc THEN {"C02_unencodable"} ELSE {})
+    \cup (IF res.unenc THEN {"C13_unencodable"} ELSE {})
     \* the library's own decoder cannot read the response the server produced (client side)
     \cup (IF res.undec THEN {"C19_undecodable"} ELSE {})
     \cup (IF req.opt = "Undo" => (post.objs = pre.objs /\ (res.kind # "resp" \/ f # 0)) THEN {} ELSE {"C08_undo"})
